@@ -68,6 +68,16 @@ type Decl struct {
 type EnumOpt struct {
 	Name string
 	Desc string
+	// Number: explicit value number (hand-written proto enums only); 0 = position
+	Number int32
+}
+
+// Num is the value number of option i of an enum.
+func (o EnumOpt) Num(i int) int32 {
+	if o.Number != 0 {
+		return o.Number
+	}
+	return int32(i + 1)
 }
 
 // Ref is a reference to a declared type.
@@ -258,7 +268,7 @@ func (f *File) depDescriptor() *descriptorpb.FileDescriptorProto {
 			e := &descriptorpb.EnumDescriptorProto{Name: str(dd.Name)}
 			e.Value = append(e.Value, &descriptorpb.EnumValueDescriptorProto{Name: str(Screaming(dd.Name) + "_UNSPECIFIED"), Number: i32(0)})
 			for i, o := range dd.Options {
-				e.Value = append(e.Value, &descriptorpb.EnumValueDescriptorProto{Name: str(Screaming(dd.Name) + "_" + o.Name), Number: i32(int32(i + 1))})
+				e.Value = append(e.Value, &descriptorpb.EnumValueDescriptorProto{Name: str(Screaming(dd.Name) + "_" + o.Name), Number: i32(o.Num(i))})
 			}
 			fdp.EnumType = append(fdp.EnumType, e)
 			continue
@@ -319,7 +329,7 @@ func (f *File) renderProto() string {
 			o.indent++
 			o.p("%s_UNSPECIFIED = 0;", Screaming(dd.Name))
 			for i, opt := range dd.Options {
-				o.p("%s_%s = %d;", Screaming(dd.Name), opt.Name, i+1)
+				o.p("%s_%s = %d;", Screaming(dd.Name), opt.Name, opt.Num(i))
 			}
 			o.indent--
 			o.p("}")
